@@ -55,6 +55,7 @@ type FuncSpec struct {
 	Pkg      string
 	Where    string
 	Asserts  map[string]bool
+	Refines  []string // interface methods ("pkg.Iface.Method") whose contract this implementation must satisfy
 }
 
 type GhostDecl struct {
@@ -97,10 +98,22 @@ type Specs struct {
 	Axioms  []*Axiom
 	Globals map[string]string // "pkgpath.Var" -> "nonnil" (global invariants)
 	Errors  []string
+	TypeInvs map[string]bool // predicate names that are object invariants (implicit precondition of every interface call)
+	Abstractions map[string]*Pred // ghost name -> definition over the implementing type's fields (refinement checks)
+	Writers []WriterRule
+}
+
+// WriterRule: the listed fields of a struct type may only be stored to inside the listed functions (static scan).
+type WriterRule struct {
+	Prop    string
+	Type    string
+	Fields  []string
+	Allowed []string
+	Where   string
 }
 
 func newSpecs() *Specs {
-	return &Specs{Funcs: map[string]*FuncSpec{}, Ghosts: map[string]*GhostDecl{}, SFuncs: map[string]*SpecFunc{}, Preds: map[string]*Pred{}, Globals: map[string]string{}}
+	return &Specs{Funcs: map[string]*FuncSpec{}, Ghosts: map[string]*GhostDecl{}, SFuncs: map[string]*SpecFunc{}, Preds: map[string]*Pred{}, Globals: map[string]string{}, Abstractions: map[string]*Pred{}, TypeInvs: map[string]bool{}}
 }
 
 var reSpecLine = regexp.MustCompile(`^//\s?@(.*)$`)
@@ -117,8 +130,8 @@ func extractSpecLines(text string) (lines []string, nums []int) {
 	return
 }
 
-var clauseKeywords = []string{"requires", "ensures", "modifies", "loop", "invariant", "decreases", "let", "fresh", "pure", "trusted", "effect", "crash", "havoc", "assume"}
-var blockKeywords = []string{"func", "invoke", "ghost", "spec", "pred", "axiom", "global"}
+var clauseKeywords = []string{"requires", "ensures", "modifies", "loop", "invariant", "decreases", "let", "fresh", "pure", "trusted", "effect", "crash", "havoc", "assume", "refines"}
+var blockKeywords = []string{"func", "invoke", "ghost", "spec", "pred", "axiom", "global", "abstraction", "writers", "typeinv"}
 
 func firstWord(s string) (string, string) {
 	s = strings.TrimSpace(s)
@@ -421,7 +434,29 @@ func (sp *Specs) parseSpecText(file, text, pkgPath string) {
 				sp.SFuncs[sf.Name] = sf
 				sp.SFOrder = append(sp.SFOrder, sf.Name)
 			}
-		case "pred":
+		case "typeinv":
+			cur = nil
+			sp.TypeInvs[strings.TrimSpace(rest)] = true
+		case "writers":
+			cur = nil
+			// writers <pkgpath.Type> fields f1,f2 only <func key>; <func key>
+			m := regexp.MustCompile(`^(C[0-9]+)\s+(\S+)\s+fields\s+([A-Za-z0-9_, ]+)\s+only\s+(.*)$`).FindStringSubmatch(rest)
+			if m == nil {
+				sp.errf(where, "bad writers rule")
+				continue
+			}
+			wr := WriterRule{Prop: m[1], Type: m[2], Where: where}
+			for _, f := range strings.Split(m[3], ",") {
+				wr.Fields = append(wr.Fields, strings.TrimSpace(f))
+			}
+			for _, f := range strings.Split(m[4], ";") {
+				if f = strings.TrimSpace(f); f != "" {
+					wr.Allowed = append(wr.Allowed, f)
+				}
+			}
+			sp.Writers = append(sp.Writers, wr)
+		case "abstraction", "pred":
+			isAbs := w == "abstraction"
 			cur = nil
 			// pred name(a, b) = expr
 			i := strings.Index(rest, "=")
@@ -446,7 +481,11 @@ func (sp *Specs) parseSpecText(file, text, pkgPath string) {
 					p.Params = append(p.Params, a)
 				}
 			}
-			sp.Preds[p.Name] = p
+			if isAbs {
+				sp.Abstractions[p.Name] = p
+			} else {
+				sp.Preds[p.Name] = p
+			}
 		case "axiom":
 			cur = nil
 			name := ""
@@ -556,6 +595,8 @@ func (sp *Specs) parseSpecText(file, text, pkgPath string) {
 				for _, n := range strings.Split(rest, ",") {
 					cur.Fresh = append(cur.Fresh, strings.TrimSpace(n))
 				}
+			case "refines":
+				cur.Refines = append(cur.Refines, strings.Trim(strings.TrimSpace(rest), "\""))
 			case "pure":
 				cur.Pure = true
 			case "trusted":
@@ -635,6 +676,10 @@ func (sp *Specs) parseHeader(kind, rest, pkgPath, where string) *FuncSpec {
 			fs.Key = fmt.Sprintf("(%s.%s).%s", pkgPath, m[3], m[4])
 		}
 		fs.Params = append([]string{m[1]}, names(m[5])...)
+		if strings.Contains(m[4], "$") {
+			// an anonymous function inside a method: the receiver is a captured variable, not a parameter
+			fs.Params = names(m[5])
+		}
 		fs.Results = names(m[6])
 		return fs
 	}
